@@ -179,7 +179,7 @@ ROUTES = {
 ROUTING_ONLY = {0o11, 0o1, 0o24, 0o3}
 
 
-def o4_cosim(ctx, tree, src, dst, n, frag, warm=()):
+def o4_cosim(ctx, tree, src, dst, n, frag, warm=(), late=0, hold=1):
     from circuitpython_nrf24l01.rf24_network import RF24Network, RF24NetworkRoutingOnly
     from circuitpython_nrf24l01.network.structs import RF24NetworkHeader
     clock = fresh_env(ctx)
@@ -212,9 +212,15 @@ def o4_cosim(ctx, tree, src, dst, n, frag, warm=()):
     mtype = ctx.int("type", 0, 127)
     msg = ctx.bytes("msg", n)
     rs, ns = nodes[src]
+    if late:  # timing jitter as a symbolic schedule: the first `late` times a node could run, it may be held back
+        symbolic_schedule(ctx, med, late, hold=hold)
+        if hold > 1:  # a node that is late by more than route_timeout legitimately costs the origin its NETWORK_ACK (C13)
+            ctx.assume(mtype <= 64)
     med.running(rs, True)
     ok = ns.send(RF24NetworkHeader(dst, mtype), msg)
     med.running(rs, False)
+    settle()
+    med.defer = None  # late is not never: every node that was held back gets to run
     settle()
     ctx.check(len(med.air) < 400, "the network goes quiet again (no endless forwarding)")
     ctx.check(not med.errors, "no node raised while forwarding: %r" % (med.errors[:1],))
@@ -231,6 +237,7 @@ def o4_cosim(ctx, tree, src, dst, n, frag, warm=()):
             ctx.check(len(q) == 0, "delivered to no other node's queue (node %s)" % oct(a))
         ctx.check(not radio.unspecified, "no use of radio behaviour the specification leaves open")
     ctx.observe("air", len(med.air))
+    ctx.observe("held_back", med.deferred)
     ctx.reached()
 
 
@@ -279,6 +286,12 @@ def jobs(tier):
         for n in ((2, 30) if tier == "quick" else (0, 2, 30, 144)):
             out.append(Job("O4-co-simulation-with-history", o4_cosim,
                            dict(tree="fifth", src=src, dst=dst, n=n, frag=True, warm=[list(w) for w in warm]), cost=40))
+    # timing jitter: symbolic schedules (2**late of them per route and length), every node may be late
+    for tree, src, dst, n, late, hold in (("deep", 0o1111, 0o1112, 25, 5, 1), ("deep", 0o211, 0o12, 1, 6, 8), ("chain", 0o1324, 0o5324, 49, 5, 40),
+                                          ("fifth", 0o55, 0o15, 30, 5, 8), ("wide", 0o13, 0o23, 72, 4, 40)) if tier == "quick" else \
+            [(t, s_, d_, n, 7, h) for t, rr in ROUTES.items() for s_, d_ in rr for n, h in ((1, 8), (49, 1), (49, 40))]:
+        out.append(Job("O4-co-simulation-symbolic-schedule", o4_cosim,
+                       dict(tree=tree, src=src, dst=dst, n=n, frag=True, late=late, hold=hold), cost=60, shards=2))
     return out
 
 
